@@ -234,9 +234,14 @@ pub unsafe extern "C" fn epoll_ctl(epfd: libc::c_int, op: libc::c_int, fd: libc:
 thread_local! {
   /// (fd, calls seen, fail from call number, how many calls fail, errno, a failure happened since last asked)
   static WATCHW: Cell<[(i32, u32, u32, u32, i32, bool); SLOTS]> = const { Cell::new([(-1, 0, u32::MAX, 0, 0, false); SLOTS]) };
+  /// (fd, call number, bytes): that write(2) call transfers only `bytes` bytes (a short count)
+  static SHORTW: Cell<(i32, u32, usize)> = const { Cell::new((-1, 0, 0)) };
 }
+/// the write(2) call numbered `call` on the watched `fd` transfers at most `bytes` bytes
+pub fn short_write(fd: i32, call: u32, bytes: usize) { let _ = SHORTW.try_with(|c| c.set((fd, call, bytes))); }
+pub fn clear_short_write() { let _ = SHORTW.try_with(|c| c.set((-1, 0, 0))); }
 pub fn watch_writes(fd: i32) { let _ = WATCHW.try_with(|c| { let mut a = c.get(); if let Some(i) = a.iter().position(|e| e.0 == fd).or_else(|| a.iter().position(|e| e.0 < 0)) { a[i] = (fd, 0, u32::MAX, 0, 0, false); } c.set(a); }); }
-pub fn unwatch_writes(fd: i32) { let _ = WATCHW.try_with(|c| { let mut a = c.get(); for e in a.iter_mut() { if e.0 == fd { *e = (-1, 0, u32::MAX, 0, 0, false); } } c.set(a); }); }
+pub fn unwatch_writes(fd: i32) { clear_short_write(); let _ = WATCHW.try_with(|c| { let mut a = c.get(); for e in a.iter_mut() { if e.0 == fd { *e = (-1, 0, u32::MAX, 0, 0, false); } } c.set(a); }); }
 pub fn writes_seen(fd: i32) -> u32 { WATCHW.try_with(|c| c.get().iter().find(|e| e.0 == fd).map(|e| e.1).unwrap_or(0)).unwrap_or(0) }
 pub fn fail_writes(fd: i32, from: u32, count: u32, errno: i32) { let _ = WATCHW.try_with(|c| { let mut a = c.get(); for e in a.iter_mut() { if e.0 == fd { e.2 = from; e.3 = count; e.4 = errno; } } c.set(a); }); }
 /// did a write on `fd` fail since this was last asked?
@@ -253,6 +258,7 @@ pub unsafe extern "C" fn write(fd: libc::c_int, buf: *const libc::c_void, count:
         let errno = w[i].4;
         let _ = WATCHW.try_with(|c| c.set(w));
         if fail { *libc::__errno_location() = errno; return -1; }
+        if let Ok((sfd, scall, sbytes)) = SHORTW.try_with(|c| c.get()) { if sfd == fd && scall == call && sbytes < count { return libc::syscall(libc::SYS_write, fd, buf, sbytes) as libc::ssize_t; } }
       }
     }
   }
